@@ -99,7 +99,7 @@ abbrev N_minimal : PStr := [109, 105, 110, 105, 109, 97, 108]
 /-- The live registries hold exactly the documented names, and each registered object is what the (repaired) constructor
     of that registry's class builds from the arguments written in formatter.py:238-263. -/
 theorem registry_table :
-    BS.Gen.htmlRegistry =
+    BS.Gen.fmtHtmlRegistry =
       [ (none, mkHTMLFormatter {}),
         (some N_html, mkHTMLFormatter { entity_substitution := .html }),
         (some N_html5, mkHTMLFormatter { entity_substitution := .html5, void_element_close_prefix := some [],
@@ -107,7 +107,7 @@ theorem registry_table :
         (some N_html5_412, mkHTMLFormatter { entity_substitution := .html, void_element_close_prefix := some [],
                                              empty_attributes_are_booleans := true }),
         (some N_minimal, mkHTMLFormatter { entity_substitution := .xml }) ] ∧
-    BS.Gen.xmlRegistry =
+    BS.Gen.fmtXmlRegistry =
       [ (none, mkXMLFormatter {}),
         (some N_html, mkXMLFormatter { entity_substitution := .html }),
         (some N_minimal, mkXMLFormatter { entity_substitution := .xml }) ] := by decide
@@ -133,22 +133,22 @@ theorem lookup_keyError_iff (reg : List (Option PStr × Cfg)) (n : Option PStr) 
     flavour's class constructed with that function and otherwise default options; a name is looked up in the flavour's
     registry, and `KeyError` is raised exactly for the names that registry does not have (so `"html5"` on an XML tree). -/
 theorem formatter_for_name_spec (isXml : Bool) :
-    (∀ c, formatterForName BS.Gen.htmlRegistry BS.Gen.xmlRegistry isXml (.obj c) = .ok c) ∧
-    (∀ s, formatterForName BS.Gen.htmlRegistry BS.Gen.xmlRegistry isXml (.fn s) = .ok
+    (∀ c, formatterForName BS.Gen.fmtHtmlRegistry BS.Gen.fmtXmlRegistry isXml (.obj c) = .ok c) ∧
+    (∀ s, formatterForName BS.Gen.fmtHtmlRegistry BS.Gen.fmtXmlRegistry isXml (.fn s) = .ok
       { language := if isXml then .xml else .html, entity_substitution := s, void_element_close_prefix := some SLASH,
         cdata_containing_tags := if isXml then [] else [SCRIPT, STYLE], empty_attributes_are_booleans := false,
         indent := SP }) ∧
-    (∀ n, formatterForName BS.Gen.htmlRegistry BS.Gen.xmlRegistry isXml (.name n) = .keyError ↔
+    (∀ n, formatterForName BS.Gen.fmtHtmlRegistry BS.Gen.fmtXmlRegistry isXml (.name n) = .keyError ↔
       n ∉ (if isXml then [none, some N_html, some N_minimal]
            else [none, some N_html, some N_html5, some N_html5_412, some N_minimal])) ∧
-    (∀ n c, formatterForName BS.Gen.htmlRegistry BS.Gen.xmlRegistry isXml (.name n) = .ok c →
-      (n, c) ∈ (if isXml then BS.Gen.xmlRegistry else BS.Gen.htmlRegistry)) := by
+    (∀ n c, formatterForName BS.Gen.fmtHtmlRegistry BS.Gen.fmtXmlRegistry isXml (.name n) = .ok c →
+      (n, c) ∈ (if isXml then BS.Gen.fmtXmlRegistry else BS.Gen.fmtHtmlRegistry)) := by
   refine ⟨fun _ => rfl, fun s => ?_, fun n => ?_, fun n c h => ?_⟩
   · cases isXml <;> rfl
   · simp only [formatterForName, lookup_keyError_iff]
-    cases isXml <;> simp [BS.Gen.htmlRegistry, BS.Gen.xmlRegistry]
+    cases isXml <;> simp [BS.Gen.fmtHtmlRegistry, BS.Gen.fmtXmlRegistry]
   · simp only [formatterForName, lookup] at h
-    cases hf : (if isXml then BS.Gen.xmlRegistry else BS.Gen.htmlRegistry).find? (fun e => e.1 == n) with
+    cases hf : (if isXml then BS.Gen.fmtXmlRegistry else BS.Gen.fmtHtmlRegistry).find? (fun e => e.1 == n) with
     | none => rw [hf] at h; exact Resolved.noConfusion h
     | some e =>
       rw [hf] at h
@@ -158,11 +158,11 @@ theorem formatter_for_name_spec (isXml : Bool) :
       have h3 : e.1 = n := by simpa using h1
       rw [← this, ← h3]; exact h2
 
-example : formatterForName BS.Gen.htmlRegistry BS.Gen.xmlRegistry true (.name (some N_html5)) = .keyError := by decide
-example : formatterForName BS.Gen.htmlRegistry BS.Gen.xmlRegistry false (.name (some N_html5))
+example : formatterForName BS.Gen.fmtHtmlRegistry BS.Gen.fmtXmlRegistry true (.name (some N_html5)) = .keyError := by decide
+example : formatterForName BS.Gen.fmtHtmlRegistry BS.Gen.fmtXmlRegistry false (.name (some N_html5))
     = .ok (mkHTMLFormatter { entity_substitution := .html5, void_element_close_prefix := some [],
                              empty_attributes_are_booleans := true }) := by decide
-example : formatterForName BS.Gen.htmlRegistry BS.Gen.xmlRegistry true (.fn (.custom 0))
+example : formatterForName BS.Gen.fmtHtmlRegistry BS.Gen.fmtXmlRegistry true (.fn (.custom 0))
     = .ok (mkXMLFormatter { entity_substitution := .custom 0 }) := by decide
 
 /-! ## effect of each option, per class
